@@ -1,6 +1,8 @@
 """Runs the registered quick checks against the seeded breaking changes kept under seeded/<name>/
-(patch.diff, demo, meta.json): applies each patch to /repo, runs the check of the property it breaks,
-expects exit 1 with a VIOLATION line, and undoes the patch straight afterwards.
+(patch.diff, demo, meta.json): applies each patch to a scratch git worktree of /repo's HEAD (so that checks
+running against /repo itself at the same time are not disturbed), runs the check of the property it breaks
+with BM_REPO pointing there, expects exit 1 with a VIOLATION line, and removes the worktree afterwards.
+(Equivalent to `git -C /repo apply <patch>; ./check ...; git -C /repo checkout -- .`, which also works.)
 usage: python3 -m vlib.seedcheck [name ...]   (development aid; not a registered check)"""
 import json
 import os
@@ -16,20 +18,22 @@ def run_one(name):
     meta = json.load(open(os.path.join(d, "meta.json")))
     pid = meta["property"]
     patch = os.path.join(d, "patch.diff")
-    st = subprocess.run(["git", "-C", REPO, "status", "--porcelain", "--untracked-files=no"], capture_output=True, text=True).stdout.strip()
-    if st:
-        return name, pid, "SKIPPED: /repo has uncommitted changes"
-    a = subprocess.run(["git", "-C", REPO, "apply", patch], capture_output=True, text=True)
+    wt = "/tmp/seedwt-%d" % os.getpid()
+    subprocess.run(["git", "-C", REPO, "worktree", "remove", "--force", wt], capture_output=True)
+    subprocess.run(["git", "-C", REPO, "worktree", "add", "-f", wt, "HEAD"], capture_output=True, check=True)
+    a = subprocess.run(["git", "-C", wt, "apply", patch], capture_output=True, text=True)
     if a.returncode != 0:
+        subprocess.run(["git", "-C", REPO, "worktree", "remove", "--force", wt], capture_output=True)
         return name, pid, "patch does not apply: " + a.stderr.strip()[:200]
     try:
         results = {}
+        env = dict(os.environ, BM_REPO=wt)
         for p in meta.get("also_checks", []) + [pid]:
-            r = subprocess.run(["./check", p, "--tier", "quick"], cwd=VERIF, capture_output=True, text=True, timeout=1800)
+            r = subprocess.run(["./check", p, "--tier", "quick"], cwd=VERIF, capture_output=True, text=True, timeout=1800, env=env)
             viol = [l for l in r.stdout.splitlines() if l.startswith("VIOLATION")]
             results[p] = "caught (%d VIOLATION lines)" % len(viol) if (r.returncode == 1 and viol) else "MISSED (rc=%d)" % r.returncode
     finally:
-        subprocess.run(["git", "-C", REPO, "checkout", "--", "."], check=True)
+        subprocess.run(["git", "-C", REPO, "worktree", "remove", "--force", wt], capture_output=True)
     return name, pid, results
 
 
